@@ -298,14 +298,15 @@ def v1_model_slide(els, head, value, limit):
             return ("ret", head)
 
 
-def v1_bind(flow_id, elements):
+def v1_bind(flow_id, elements, flow_config=None):
     """run the real `sliding.slide` from every head position with every expression forced to
-    True / to False and compare with the model.  returns (n_validated, n_cycles, mismatches)"""
-    els = G.v1_runtime_elements(elements)
+    True / to False and compare with the model.  returns (n_validated, n_cycles, mismatches).
+    flow_config: a FlowConfig the runtime's loader made - slide runs on that object, the model on its elements"""
+    els = G.v1_runtime_elements(elements) if flow_config is None else flow_config.elements
     n = len(els)
     if v1s.eval_expression is not _v1_eval:
         v1s.eval_expression = _v1_eval
-    cfg = V1FlowConfig(id=flow_id, elements=els)
+    cfg = V1FlowConfig(id=flow_id, elements=els) if flow_config is None else flow_config
     ok = cyc = 0
     bad = []
     _V1["active"] = True
